@@ -179,7 +179,7 @@ class C02(Prop):
                     ops += [call] * k
                 ops.append("close")
             out.append({"name": "gen%d" % c, "ops": ops, "sticky": 1})
-        return out
+        return S.record_distribution(ctx, out)
 
     def nontrivial(self, case, out):
         return any(l.startswith(("ok name=", "eformat", "ok count=")) for l in out)
